@@ -363,6 +363,7 @@ def report(prop, res, known, tier, seed, extra_cov, assumptions, t0, rule, sampl
     Returns the exit code."""
     new_viol = []
     known_hits = {}
+    l3drift = {}
     os.makedirs(os.path.join(core.OUT, "replays"), exist_ok=True)
     for v in res.violations:
         case = res.cases[v["case"]]
@@ -372,11 +373,17 @@ def report(prop, res, known, tier, seed, extra_cov, assumptions, t0, rule, sampl
                 continue
             if clause.startswith("HARNESS_"):
                 raise HarnessError("%s on case %s" % (clause, json.dumps(core.case_signature(case), separators=(",", ":"))))
+            if clause.startswith("L3_"):
+                # a mechanism-level observation (hook report) differs from the model: diagnostic, never a verdict
+                l3drift[clause] = l3drift.get(clause, 0) + 1
+                continue
             f = core.match_known(known, p, clause, case, v.get("where"))
             if f is not None:
                 known_hits.setdefault(f["id"], [f, 0])[1] += 1
                 continue
             new_viol.append((v, clause, case))
+    if l3drift:
+        print("[api] DRIFT (diagnostic, not a verdict): %s" % json.dumps(l3drift, sort_keys=True))
     byclause = {}
     for v, clause, case in new_viol:
         k = "%s/%s/%s/%s/%s" % (clause, case.get("p1"), case.get("p2"), case.get("p4"), case.get("p5")) if os.environ.get("VERIF_BREAKDOWN") else clause
